@@ -21,6 +21,7 @@ EXTENDS Validation, Json, IOUtils
 
 ASSUME TLCSet(8, JsonDeserialize(IOEnv.SCHEMA))
 TS == TLCGet(8)
+CONSTANT Full      \* TRUE: the whole family (thorough); FALSE: a third of the two-selection documents (quick)
 VARIABLE d
 Ctx0(doc, dev) == [ts |-> TS, doc |-> doc, vars |-> <<>>, opName |-> "", flavour |-> "static", dev |-> dev]
 
@@ -40,7 +41,7 @@ Level1 ==
   \cup {F(n, "", <<>>, <<s>>) : n \in {"a", "node", "u", "n", "c"}, s \in Level2}
   \cup {Inl(c, <<l>>) : c \in {"", "Query", "A"}, l \in {F("n", "", <<>>, <<>>), F("id", "", <<>>, <<>>)}}
 Doc(sels) == [ops |-> <<[name |-> "", ty |-> "query", vars |-> <<>>, dirs |-> <<>>, sels |-> sels]>>, frags |-> <<>>]
-Small == {F(n, al, <<>>, <<>>) : n \in {"n", "a", "nope"}, al \in {"", "k"}}
+Small == {F(n, al, <<>>, <<>>) : n \in (IF Full THEN {"n", "a", "nope"} ELSE {"n"}), al \in {"", "k"}}
 Docs == {Doc(<<s>>) : s \in Level1} \cup {Doc(<<s, t>>) : s \in Small, t \in Level1}
 
 \* ---- Law 1: the constructive formulation ---------------------------------
